@@ -61,6 +61,9 @@ func newCtx(p *Prog, prop, tier string) *Ctx {
 
 // Rule declares a rule (for the evidence explanation).
 func (c *Ctx) Rule(id, statement string) {
+	if _, aliased := c.alias[id]; aliased {
+		return // the obligations go to the rule that stands for it here
+	}
 	if _, ok := c.rules[id]; !ok {
 		c.ruleIDs = append(c.ruleIDs, id)
 	}
@@ -134,6 +137,9 @@ func (c *Ctx) Evals(n int) { c.evals += n }
 
 // Floor is the vacuity guard: rule must have produced at least n obligations.
 func (c *Ctx) Floor(rule string, n int) {
+	if to, ok := c.alias[rule]; ok {
+		rule = to
+	}
 	got := 0
 	for _, o := range c.obs {
 		if o.Rule == rule {
